@@ -22,14 +22,14 @@ Definition verdict_text (v : verdict) : bytes :=
 Definition m_room_create : bytes := bs "m.room.create".
 
 (* the room-ID check made when the event struct is filled: checkID for eventV1 / eventV2,
-   checkRoomID (a sigil test, skipped for the create event) for eventV3 *)
+   checkRoomID (sigil and length, skipped for the create event) for eventV3 *)
 Definition check_room (struct : N) (type : bytes) (state_key : option bytes) (room : bytes) : verdict :=
   if struct =? 3 then
     let is_create := bytes_eqb type m_room_create
                      && match state_key with Some k => is_nil k | None => false end in
     if is_create then VOk
     else match room with
-         | c :: _ => if c =? 33 then VOk else VErr
+         | c :: _ => if c =? 33 then check_id_length room else VErr
          | [] => VErr
          end
   else check_id room 33.
